@@ -43,7 +43,7 @@ static void work(void *c, size_t i){ struct app *a=c; atomic_fetch_add(&invocati
   if(a->depth<2 && a->n<=8 && rnd()%4==0) do_apply((int)(rnd()%2), rnd()%5, a->depth+1);   // nested apply (AUTO / global only: a nested apply onto the custom queue it runs on, with a barrier in between, is a client wait-for cycle)
   if(rnd()%8==0) sched_yield();
   atomic_fetch_sub(&a->running,1); atomic_fetch_add(&a->finished,1); }
-static dispatch_queue_t QS, QC, QSS, QCC; static _Atomic int bar_c;
+static dispatch_queue_t QS, QC, QSS, QCC; static _Atomic int bar_c; static _Atomic long chain_barriers, chain_barriers_ran;
 static void do_apply(int kind, size_t n, int depth){ struct app a; memset(&a,0,sizeof a); a.n=n; a.kind=kind; a.depth=depth; a.cnt=calloc(n+1,1); atomic_store(&a.last,-1);
   dispatch_queue_t q;
   switch(kind){ case 0: q=DISPATCH_APPLY_AUTO; break; case 1: q=(dispatch_queue_t)dispatch_get_global_queue(0,0); break;
@@ -58,7 +58,10 @@ static void do_apply(int kind, size_t n, int depth){ struct app a; memset(&a,0,s
 static int ncpu; static int rounds;
 static size_t pick_n(void){ size_t c[]={0,1,2,(size_t)ncpu-1,(size_t)ncpu,(size_t)ncpu+1,3,7,100,1000,20000}; return c[rnd()%11]; }
 static void *client(void *x){ (void)x; for(int r=0;r<rounds && !viol;r++){ int kind=(int)(rnd()%6); do_apply(kind,pick_n(),0);
-    if(rnd()%5==0){ dispatch_barrier_async(QC,^{ atomic_store(&bar_c,1); for(volatile int k=0;k<3000;k++){} atomic_store(&bar_c,0); }); } } return NULL; }
+    if(rnd()%5==0){ dispatch_barrier_async(QC,^{ atomic_store(&bar_c,1); for(volatile int k=0;k<3000;k++){} atomic_store(&bar_c,0); }); }
+    // barriers on the chained queues too: width that an apply failed to give back on an upper level shows as a barrier (and
+    // everything behind it) that never runs
+    if(rnd()%4==0){ atomic_fetch_add(&chain_barriers,1); dispatch_barrier_async(rnd()%2?QSS:QCC,^{ atomic_fetch_add(&chain_barriers_ran,1); }); } } return NULL; }
 int main(int argc,char**argv){ seed=argc>1?strtoull(argv[1],0,0):1; rounds=argc>2?atoi(argv[2]):40; ncpu=(int)sysconf(_SC_NPROCESSORS_ONLN);
   evs=calloc(MAXEV,sizeof *evs);
   QS=dispatch_queue_create("s",NULL); QC=dispatch_queue_create("c",DISPATCH_QUEUE_CONCURRENT);
@@ -68,6 +71,8 @@ int main(int argc,char**argv){ seed=argc>1?strtoull(argv[1],0,0):1; rounds=argc>
   pthread_t th[4]; int nt=3; for(int i=0;i<nt;i++) pthread_create(&th[i],0,client,0);
   for(int i=0;i<nt;i++) pthread_join(th[i],0);
   dispatch_barrier_sync(QC,^{});
+  for(int w=0; w<10000 && atomic_load(&chain_barriers_ran)<atomic_load(&chain_barriers); w++) usleep(1000);
+  if(!viol && atomic_load(&chain_barriers_ran)<atomic_load(&chain_barriers)) fail("barrier items submitted to a concurrent queue of a chain after dispatch_apply calls on it never ran (10 s): ran/submitted",atomic_load(&chain_barriers_ran),atomic_load(&chain_barriers),0);
   _dispatch_verif_atomic_cb=0;
   if(viol) printf("ORACLE VIOL seed=%llu %s\n",(unsigned long long)seed,vmsg); else printf("ORACLE ok items=%ld events=%lu\n",atomic_load(&invocations),atomic_load(&nev));
   unsigned long n=atomic_load(&nev); if(n>MAXEV) n=MAXEV;
